@@ -387,10 +387,10 @@ def run(ctx):
         ctx.unsure("R14.2", "_periodic_data_interpolator", "scale factor / unit-vector assignments not found", pi_f.loc())
     n_acc, n_ws = roles.get("acc"), roles.get("wsum")
     finals = [n for n in ast.walk(pi_f.node) if isinstance(n, ast.Assign) and len(n.targets) == 1 and isinstance(n.targets[0], ast.Name)
-              and "np.angle" in ast.unparse(n.value)]
+              and ("np.angle" in ast.unparse(n.value) or "np.arctan2" in ast.unparse(n.value))]
     if len(finals) == 1 and n_acc and n_ws:
         env.vars.update({n_ws: P("wsum"), n_acc: P("acc")})
-        v = T.to_term(it3.eval(finals[0].value, env))
+        v = T.to_term(it3.eval(_sd2(pi_f.node, finals[0].value, {n_ws, n_acc, "self"}), env))     # named intermediates read through
         want = op("angle", op("where", CMP("gt", P("wsum"), sp.Rational(1, 2)), P("acc") / P("wsum"), T.NAN_T)) * P("data_period") / (2 * sp.pi)
         ctx.equiv("R14.2", "_periodic_data_interpolator[angle back to data units]", v, want, pi_f.loc(finals[0]),
                   "angle of the weighted mean vector, scaled by period/(2*pi); NaN when less than half the weight is valid", interp=it3)
